@@ -192,10 +192,10 @@ class C16(Check):
                        "distinct SHA1 of the whole case")
 
     def budget(self):
-        return 700 if self.tier == "quick" else 9000
+        return 3000 if self.tier == "quick" else 30000
 
     def search_budget(self):
-        return 1500 if self.tier == "quick" else 12000
+        return 3000 if self.tier == "quick" else 20000
 
     # ---- generation ---------------------------------------------------------
     def gen_spec(self, rng, positive=False, small=False, nonflex=False):
@@ -338,60 +338,66 @@ class C16(Check):
         return reqs
 
     # ---- judgement ----------------------------------------------------------
-    @staticmethod
-    def tie_graph(name, impl, model, fails):
+    def tie_graph(self, name, impl, model, fails, in_scope=True):
+        """Primary tie (a Failure): raises-or-not on in-scope input, nodes, typed edges.
+        Secondary observables (index rows, removed flags, DiGraph node set, num_edges) are not in
+        the property's statement; a disagreement there is counted in the evidence
+        (input_distribution: secondary_mismatch:*) and never raised as a violation."""
         if impl[0] != model[0]:
-            fails.append(Failure("tie", f"{name}:raises",
-                                 "implementation and model disagree on whether the builder raises",
-                                 expected=model[:1], observed=impl[:1]))
+            if in_scope:
+                fails.append(Failure("tie", f"{name}:raises",
+                                     "implementation and model disagree on whether the builder raises",
+                                     expected=model[:1], observed=impl[:1]))
+            else:
+                self.note(f"secondary_mismatch:{name}:raises-out-of-scope")
             return
         if impl[0] == 0:
             return
-        labels = ["nodes", "edges", "nodes_by_type", "nodes_by_machine", "nodes_by_job", "removed_nodes"]
-        for k, lab in enumerate(labels, start=1):
+        for k, lab in ((1, "nodes"), (2, "edges")):
             if impl[k] != model[k]:
-                fails.append(Failure("tie", f"{name}:{lab}", f"{lab} differ between implementation and model",
-                                     expected=model[k], observed=impl[k]))
+                if in_scope:
+                    fails.append(Failure("tie", f"{name}:{lab}",
+                                         f"{lab} differ between implementation and model",
+                                         expected=model[k], observed=impl[k]))
+                else:
+                    self.note(f"secondary_mismatch:{name}:{lab}-out-of-scope")
+        for k, lab in ((3, "nodes_by_type"), (5, "nodes_by_job"), (6, "removed_nodes")):
+            if impl[k] != model[k]:
+                self.note(f"secondary_mismatch:{name}:{lab}")
+        if [sorted(r) for r in impl[4]] != [sorted(r) for r in model[4]]:
+            self.note(f"secondary_mismatch:{name}:nodes_by_machine")
         live = [i for i, r in enumerate(impl[6]) if not r]
         if impl[7] != live:
-            fails.append(Failure("tie", f"{name}:digraph-node-set",
-                                 "DiGraph node set != ids whose removed flag is False",
-                                 expected=live, observed=impl[7]))
+            self.note(f"secondary_mismatch:{name}:digraph-node-set")
         if not impl[9]:
-            fails.append(Failure("tie", f"{name}:node-attribute", "DiGraph node attribute is not the Node"))
+            self.note(f"secondary_mismatch:{name}:node-attribute")
         if impl[10] != len(impl[2]):
-            fails.append(Failure("tie", f"{name}:num_edges", "num_edges != number of DiGraph edges",
-                                 expected=len(impl[2]), observed=impl[10]))
+            self.note(f"secondary_mismatch:{name}:num_edges")
 
-    @staticmethod
-    def tie_removes(name, impl, model, fails):
+    def tie_removes(self, name, impl, model):
+        """remove_node belongs to C17's property; here the model of it (Graph.remove_node) is
+        only monitored: a disagreement is counted, never raised."""
+        self.note("remove_node_calls_compared", len(impl))
         if len(impl) != len(model):
-            fails.append(Failure("tie", f"{name}:remove_node", "different number of outcomes",
-                                 expected=model, observed=impl))
+            self.note("secondary_mismatch:remove_node")
             return
-        for i, (a, b) in enumerate(zip(impl, model)):
-            if a[:4] != b[:4]:
-                fails.append(Failure("tie", f"{name}:remove_node",
-                                     f"remove_node call #{i}: implementation and model differ",
-                                     expected=b, observed=a[:4]))
-                return
-            if a[0] == 1 and a[4] != a[3]:
-                fails.append(Failure("tie", f"{name}:remove_node",
-                                     f"call #{i}: DiGraph node set != non_removed_nodes()",
-                                     expected=a[3], observed=a[4]))
+        for a, b in zip(impl, model):
+            if a[:4] != b[:4] or (a[0] == 1 and a[4] != a[3]):
+                self.note("secondary_mismatch:remove_node")
                 return
 
     def judge(self, case, obs, outs):
         fails = []
         spec = case["spec"]
         in_scope = all(len(j) > 0 for j in spec)
+        nodup = all(len(set(ms)) == len(ms) for job in spec for ms, _ in job)
         if case["kind"] == "build":
             graphs_, rem = obs
             models = outs[:4]
             k = 4
             for b, (g, m) in enumerate(zip(graphs_, models)):
                 name = BUILDERS[b]
-                self.tie_graph(name, g, m, fails)
+                self.tie_graph(name, g, m, fails, (in_scope and nodup) if b == 0 else True)
                 if g[0] != 1:
                     if in_scope:
                         fails.append(Failure("oracle", f"{name}:raises",
@@ -399,7 +405,9 @@ class C16(Check):
                     continue
                 res = outs[k]
                 k += 1
-                nodup = bool(res[5])
+                if bool(res[5]) != nodup or bool(res[4]) != in_scope:
+                    fails.append(Failure("tie", "scope-predicates",
+                                         "extracted nonempty_jobsb / nodup_machinesb disagree with the harness"))
                 scope = (in_scope and nodup) if b == 0 else True
                 if scope:
                     for lab, ok in zip(ORACLE_NAMES, res[:4]):
@@ -415,10 +423,9 @@ class C16(Check):
             mrem = outs[k]
             if rem == [0] or mrem == [0]:
                 if rem != mrem:
-                    fails.append(Failure("tie", "remove_node:raises", "builder raised on one side only",
-                                         expected=mrem, observed=rem))
+                    self.note("secondary_mismatch:remove_node")
             else:
-                self.tie_removes(BUILDERS[case["rb"]], rem, mrem, fails)
+                self.tie_removes(BUILDERS[case["rb"]], rem, mrem)
             return fails
 
         rows, g, facts, built, rem = obs
@@ -462,7 +469,7 @@ class C16(Check):
                                          "dispatcher-built schedule: longest source->sink path != makespan",
                                          expected=mk, observed=[longest, longest_nx]))
         if case.get("removes"):
-            self.tie_removes(name, rem, outs[2], fails)
+            self.tie_removes(name, rem, outs[2])
         return fails
 
     def nontrivial(self, case, obs):
